@@ -1,8 +1,10 @@
 """C20 — immutable configuration: values change only through authorised, logged mutations."""
 import itertools
+import math
+from fractions import Fraction
 
 from . import common
-from .common import Check, Violation, cz, cbool, clist, ctuple, cnat, copt
+from .common import Check, Violation, cz, cbool, clist, ctuple, cnat, copt, cstr
 
 TYPES = ["Structural", "Regulatory", "Housekeeping", "Conditional", "Dormant"]
 LEVELS = ["Silenced", "Low", "Normal", "High", "Over"]
@@ -22,16 +24,93 @@ def gid(s):
     return int(s[1:])
 
 
+# ---- configuration values ----------------------------------------------------
+# A case holds plain JSON values (null, true/false, integers, finite floats, strings); they are handed to the
+# Genome as the corresponding Python objects.  Everything the harness OBSERVES is first turned into a tagged form
+# so that values are compared by identity of type and content (True is not 1, 1.0 is not 1, None is not "absent"):
+#   None -> ["n"], bool -> ["b", 0/1], int -> ["i", z], float -> ["f", num, den], str -> ["s", text]
+GV_DEFAULT = -1000          # second default handed to get_value, to tell "default" from a stored None
+SPECIAL_VALUES = [None, None, None, False, True, "", "0", "None", "a", 0.0, 1.0, 0.5, 0]
+
+
+def T(v):
+    if v is None:
+        return ["n"]
+    if isinstance(v, bool):
+        return ["b", int(v)]
+    if isinstance(v, int):
+        return ["i", v]
+    if isinstance(v, float) and math.isfinite(v):
+        fr = Fraction(v)
+        return ["f", fr.numerator, fr.denominator]
+    if isinstance(v, str):
+        return ["s", v]
+    return ["?", repr(v)]
+
+
+def vcode(t):
+    """Model.val_code of a tagged value."""
+    k = t[0]
+    if k == "n":
+        return [0]
+    if k == "b":
+        return [1, t[1]]
+    if k == "i":
+        return [2, t[1]]
+    if k == "f":
+        return [3, t[1], t[2]]
+    if k == "s":
+        return [4, len(t[1])] + [ord(c) for c in t[1]]
+    raise ValueError(f"a value outside the modelled configuration values appeared: {t[1]}")
+
+
+def vnum(t):
+    """Model.val_num of a tagged value (used by the arithmetic callback rules only)."""
+    k = t[0]
+    if k == "n":
+        return 0
+    if k in ("b", "i", "f"):
+        return t[1]
+    if k == "s":
+        return len(t[1])
+    raise ValueError(t)
+
+
+def cval(v):
+    t = T(v)
+    k = t[0]
+    if k == "n":
+        return "VNone"
+    if k == "b":
+        return f"(VBool {cbool(t[1])})"
+    if k == "i":
+        return f"(VInt {cz(t[1])})"
+    if k == "f":
+        return f"(VFloat {cz(t[1])} {cz(t[2])})"
+    if k == "s":
+        return f"(VStr {cstr(t[1])})"
+    raise ValueError(f"not a configuration value: {v!r}")
+
+
+def pat(p):
+    """A value pattern of a `match` rule: None = any value; [x] = exactly the value x (so [None] = the value None);
+    a bare non-None value x = exactly x."""
+    if p is None:
+        return None
+    return T(p[0]) if isinstance(p, list) else T(p)
+
+
 def rule_ok(rule, n, old, v, r):
+    """old, v: tagged values."""
     k = rule[0]
     if k == "match":
         _, g, o, w, rr = rule
-        return ((g is None or g == n) and (o is None or o == old) and (w is None or w == v)
+        return ((g is None or g == n) and (pat(o) is None or pat(o) == old) and (pat(w) is None or pat(w) == v)
                 and (rr is None or rr == r))
     if k == "newmod":
-        return v % rule[1] == rule[2]
+        return vnum(v) % rule[1] == rule[2]
     if k == "grow":
-        return old < v
+        return vnum(old) < vnum(v)
     raise ValueError(rule)
 
 
@@ -46,12 +125,15 @@ class C20(Check):
     N_QUICK = 800
     N_THOROUGH = 16000
     RULE = ("a parent genome of 1..5 genes (names from 8 ids, occasionally a duplicate name in the constructor list) over all 5 gene "
-            "types x 5 default expression levels, allow_mutations both ways, on_mutation in {absent, deny-all, scripted rule lists "
+            "types x 5 default expression levels, values mostly small integers and about a quarter of the time None / False / True / "
+            "'' / '0' / 'None' / 'a' / 0.0 / 1.0 / 0.5 / 0 (initial values, mutate and replication arguments, callback patterns; "
+            "values are compared by type and content), allow_mutations both ways, on_mutation in {absent, deny-all, scripted rule lists "
             "approving by gene / exact change / reason / parity of the new value / growth / everything}; 3..12 operations from "
             "{add_gene (new and re-add), mutate, rollback_mutation, set_expression, silence_gene, activate_gene, "
             "replicate(mutations, inherit_expression), express(context)} each addressed to a random genome of the lineage "
             "(parent, children, grandchildren; at most 4 genomes); mutation_rate = 0. Exhaustive part: every sequence of 2 (quick) / "
-            "3 (thorough) operations from a 13-operation alphabet x 2 allow settings x 3 callbacks on a 2-gene parent. "
+            "3 (thorough) operations from a 15-operation alphabet x 2 allow settings x 3 callbacks on a 2-gene parent whose first "
+            "gene holds None. "
             "non-trivial = at least one mutate/rollback/replicate-with-mutations or re-add reached the gate; distinct by case content")
     LEVEL_TEXT = ("Coq theorems, for all genomes, approval callbacks (arbitrary functions of gene, old value, new value, reason) and "
                   "operation lists of any length over a lineage of any size, about a hand-written model of Genome: with allow_mutations "
@@ -60,15 +142,20 @@ class C20(Check):
                   "is append-only, operations addressed to one genome never change another (replicate only appends the child), a child "
                   "has the parent's genes and differs only where a replication mutation was authorised and logged, express is exactly "
                   "the non-silenced non-dormant genes with conditional ones only when named, and rollback re-applies the value preceding "
-                  "the last approved mutation. The model is tied to the code by evaluating it in Coq on every generated lineage history "
+                  "the last approved mutation and is never a silent no-op once an approved mutation of the gene is logged (values are "
+                  "None / bool / int / float / str, None being a value and not 'nothing recorded'). The model is tied to the code by evaluating it in Coq on every generated lineage history "
                   "the implementation ran and comparing return values, exported genes, get_value, hashes, statistics, expressed "
                   "configurations and logs of every genome after every operation.")
-    LEVEL_NOTE = ("Trusts: Coq kernel+VM; the correspondence harness; names/values/descriptions modelled as integers; md5/json hash "
+    LEVEL_NOTE = ("Trusts: Coq kernel+VM; the correspondence harness; names/descriptions modelled as integers, values as "
+                  "None/bool/int/finite float/str; md5/json hash "
                   "modelled as the sorted value map (compared for equality only); the callback is a pure function of the proposed "
                   "change; mutation_rate = 0. Axioms: none (Print Assumptions: closed).")
     TECHNIQUE = "Coq proof by induction over operation lists with a log-replay invariant + vm_compute correspondence against Genome"
-    TRUSTED = ["modelled not verified: gene names, values and descriptions are integers; md5(json(sorted value map)) is modelled "
-               "as the sorted value map itself and compared only for equality/inequality (collision freedom of md5 trusted)",
+    TRUSTED = ["modelled not verified: gene names and descriptions are integers; values are None, booleans, integers, finite "
+               "floats (exact fraction; no nan/inf/-0.0) and strings, compared by type and content (containers and other "
+               "objects as values are not generated); md5(json(sorted value map)) is modelled "
+               "as the sorted value map itself and compared only for equality/inequality (collision freedom of md5 trusted; "
+               "json renders the modelled values injectively)",
                "_genes and _expression are modelled as one association list (the harness checks on every observation that both "
                "dicts have the same keys in the same order)",
                "the approval callback is a deterministic, side-effect-free function of (gene, original value, new value, reason)"]
@@ -77,8 +164,16 @@ class C20(Check):
                    "a refused re-add (add_gene of an existing name) returns False without a log entry: noted, not demanded (DESIGN reading)"]
 
     # -- generation --------------------------------------------------------
+    @staticmethod
+    def _rand_value(rng, lo, hi):
+        """Mostly small integers; about a quarter of the time a value of another type or a falsy one (None, False,
+        True, "", "0", "None", 0.0, 1.0, 0.5, 0)."""
+        if rng.random() < 0.27:
+            return rng.choice(SPECIAL_VALUES)
+        return rng.randint(lo, hi)
+
     def _rand_gene(self, rng, name):
-        return [name, rng.randint(-3, 9), rng.randrange(5), rng.randrange(6), int(rng.random() < 0.4),
+        return [name, self._rand_value(rng, -3, 9), rng.randrange(5), rng.randrange(6), int(rng.random() < 0.4),
                 rng.choice([0, 1, 2, 2, 2, 3, 4])]
 
     def _rand_oracle(self, rng, names):
@@ -93,7 +188,7 @@ class C20(Check):
             if j < 0.3:
                 rules.append(["match", rng.choice(names), None, None, None])
             elif j < 0.45:
-                rules.append(["match", rng.choice(names), None, rng.randint(-2, 6), None])
+                rules.append(["match", rng.choice(names), None, [self._rand_value(rng, -2, 6)], None])
             elif j < 0.6:
                 rules.append(["match", None, None, None, rng.randrange(3)])
             elif j < 0.75:
@@ -103,7 +198,8 @@ class C20(Check):
             elif j < 0.95:
                 rules.append(["match", None, None, None, None])
             else:
-                rules.append(["match", rng.choice(names), rng.randint(-3, 9), rng.randint(-2, 6), rng.randrange(3)])
+                rules.append(["match", rng.choice(names), [self._rand_value(rng, -3, 9)], [self._rand_value(rng, -2, 6)],
+                              rng.randrange(3)])
         return rules
 
     def gen_cases(self, rng, n):
@@ -123,7 +219,7 @@ class C20(Check):
                 nm = rng.choice(sorted(known)) if rng.random() < 0.88 else rng.randrange(8)
                 k = rng.random()
                 if k < 0.30:
-                    ops.append([tgt, "mutate", nm, rng.randint(-2, 6)])
+                    ops.append([tgt, "mutate", nm, self._rand_value(rng, -2, 6)])
                     touched[tgt].append(nm)
                 elif k < 0.46:
                     # mostly roll back genes this genome tried to mutate (or inherited a mutation of)
@@ -147,7 +243,7 @@ class C20(Check):
                     for x in ks:
                         if x not in seen:
                             seen.add(x)
-                            muts.append([x, rng.randint(-2, 6)])
+                            muts.append([x, self._rand_value(rng, -2, 6)])
                     ops.append([tgt, "replicate", muts, int(rng.random() < 0.75)])
                     touched[count] = [m[0] for m in muts]
                     count += 1
@@ -157,8 +253,9 @@ class C20(Check):
         return out
 
     def exhaustive_cases(self):
-        genes = [[0, 1, 0, 0, 1, 2], [1, 5, 3, 1, 0, 2]]
+        genes = [[0, None, 0, 0, 1, 2], [1, 5, 3, 1, 0, 2]]
         alphabet = [["mutate", 0, 2], ["mutate", 1, 3], ["mutate", 2, 3], ["rollback", 0], ["rollback", 1],
+                    ["mutate", 0, False], ["mutate", 1, None],
                     ["add", [0, 7, 4, 2, 0, 0]], ["add", [2, 4, 1, 3, 0, 3]], ["silence", 0], ["activate", 0],
                     ["setexpr", 1, 3], ["replicate", [[0, 4], [1, 2]], 1], ["replicate", [], 0], ["express", [1]]]
         depth = 2 if self.tier == "quick" else 3
@@ -182,7 +279,7 @@ class C20(Check):
         tcode = {t: i for i, t in enumerate(GM.GeneType)}
         genes, levels, bad = [], [], []
         for k, gg in g._genes.items():
-            genes.append([gid(k), gg.value, tcode[gg.gene_type], int(gg.description[1:]), int(bool(gg.required)),
+            genes.append([gid(k), T(gg.value), tcode[gg.gene_type], int(gg.description[1:]), int(bool(gg.required)),
                           int(gg.default_expression.value)])
             if gg.name != k:
                 bad.append(f"key {k} holds gene named {gg.name}")
@@ -191,35 +288,39 @@ class C20(Check):
             got = g.get_gene(k)
             if got is not gg:
                 bad.append(f"get_gene({k}) is not the stored gene")
+            # the stored value as its readers see it: get_value of a non-silenced gene is the stored value
+            # (asked with a default that is not a configuration value here, so a stored None is not mistaken for it)
+            if st is not None and int(st.level.value) != 0 and T(g.get_value(k, GV_DEFAULT)) != T(gg.value):
+                bad.append(f"get_value({k}) = {g.get_value(k, GV_DEFAULT)!r} but the stored value is {gg.value!r}")
         if list(g._expression) != list(g._genes):
             bad.append(f"_genes keys {list(g._genes)} != _expression keys {list(g._expression)}")
         ex = g.export()
-        exg = [[gid(d["name"]), d["value"], tcode[GM.GeneType(d["gene_type"])], int(d["description"][1:]),
+        exg = [[gid(d["name"]), T(d["value"]), tcode[GM.GeneType(d["gene_type"])], int(d["description"][1:]),
                 int(bool(d["required"])), int(d["default_expression"])] for d in ex["genes"]]
         exl = [int(v["level"]) for v in ex["expression"].values()]
         if exg != genes or (not bad and exl != levels):
             bad.append(f"export() {exg}/{exl} disagrees with the stored genes {genes}/{levels}")
         st = g.get_statistics()
-        log = [[gid(m.gene_name), m.original_value, m.new_value, REASON_STR.get(m.reason, 9), int(bool(m.approved))]
+        log = [[gid(m.gene_name), T(m.original_value), T(m.new_value), REASON_STR.get(m.reason, 9), int(bool(m.approved))]
                for m in g._mutations]
         return {"genes": genes, "levels": levels, "hash": g.get_hash(), "stat_hash": st["hash"],
                 "parent_hash": ex["parent_hash"], "generation": ex["generation"], "total": st["total_genes"],
                 "mcount": st["mutations_count"], "approved": st["approved_mutations"], "log": log,
-                "getvalue": [g.get_value(gname(x[0])) for x in genes],
-                "expr0": [[gid(k), v] for k, v in g.express().items()],
-                "exprb": [[gid(k), v] for k, v in g.express({gname(i): True for i in CTX_B}).items()],
+                "getvalue": [[T(g.get_value(gname(x[0]))), T(g.get_value(gname(x[0]), GV_DEFAULT))] for x in genes],
+                "expr0": [[gid(k), T(v)] for k, v in g.express().items()],
+                "exprb": [[gid(k), T(v)] for k, v in g.express({gname(i): True for i in CTX_B}).items()],
                 "allow": bool(g.allow_mutations), "inconsistent": bad}
 
     @staticmethod
     def _detail(s, frm):
         rows = [[], [], [], [], []]
         for x, lv in zip(s["genes"], s["levels"]):
-            rows[0] += x + [lv]
-        for v in s["getvalue"]:
-            rows[1] += [0, 0] if v is None else [1, v]
-        rows[2] = [y for kv in s["expr0"] for y in kv]
-        rows[3] = [y for kv in s["exprb"] for y in kv]
-        rows[4] = [y for m in s["log"][frm:] for y in m]
+            rows[0] += [x[0]] + vcode(x[1]) + x[2:] + [lv]
+        for v, w in s["getvalue"]:
+            rows[1] += vcode(v) + vcode(w)
+        rows[2] = [y for k, v in s["expr0"] for y in [k] + vcode(v)]
+        rows[3] = [y for k, v in s["exprb"] for y in [k] + vcode(v)]
+        rows[4] = [y for m in s["log"][frm:] for y in [m[0]] + vcode(m[1]) + vcode(m[2]) + m[3:]]
         return rows
 
     def run_impl(self, case):
@@ -235,8 +336,8 @@ class C20(Check):
 
         def on_mutation(m):
             n, r = gid(m.gene_name), REASON_STR.get(m.reason, 9)
-            ok = oracle_says(oracle, n, m.original_value, m.new_value, r)
-            calls.append([n, m.original_value, m.new_value, r, int(ok)])
+            ok = oracle_says(oracle, n, T(m.original_value), T(m.new_value), r)
+            calls.append([n, T(m.original_value), T(m.new_value), r, int(ok)])
             return ok
 
         hashes = {}
@@ -292,14 +393,14 @@ class C20(Check):
                 ret = len(world) - 1
             elif kind == "express":
                 cfg = g.express({gname(n): True for n in op[2]} if op[2] else None)
-                ret = [[gid(k), v] for k, v in cfg.items()]
+                ret = [[gid(k), T(v)] for k, v in cfg.items()]
             else:
                 raise ValueError(kind)
             snaps = [self._snap(w) for w in world]
             if kind == "replicate":
                 obs.append([1, ret])
             elif kind == "express":
-                obs.append([2] + [y for kv in ret for y in kv])
+                obs.append([2] + [y for k, v in ret for y in [k] + vcode(v)])
             else:
                 if not isinstance(ret, bool):
                     raise RuntimeError(f"{kind} returned {ret!r}")
@@ -316,12 +417,15 @@ class C20(Check):
     # -- model input -------------------------------------------------------
     def coq_case(self, case):
         def gene(x):
-            return f"(mkGene {cz(x[0])} {cz(x[1])} {TYPES[x[2]]} {cz(x[3])} {cbool(x[4])} {LEVELS[x[5]]})"
+            return f"(mkGene {cz(x[0])} {cval(x[1])} {TYPES[x[2]]} {cz(x[3])} {cbool(x[4])} {LEVELS[x[5]]})"
 
         def rule(q):
             if q[0] == "match":
                 r = "None" if q[4] is None else f"(Some {REASONS[q[4]]})"
-                return f"(RMatch {copt(q[1])} {copt(q[2])} {copt(q[3])} {r})"
+
+                def vp(p):
+                    return "None" if p is None else f"(Some {cval(p[0] if isinstance(p, list) else p)})"
+                return f"(RMatch {copt(q[1])} {vp(q[2])} {vp(q[3])} {r})"
             if q[0] == "newmod":
                 return f"(RNewMod {cz(q[1])} {cz(q[2])})"
             return "RGrow"
@@ -331,7 +435,7 @@ class C20(Check):
             if k == "add":
                 t = f"OAdd {gene(o[2])}"
             elif k == "mutate":
-                t = f"OMutate {cz(o[2])} {cz(o[3])}"
+                t = f"OMutate {cz(o[2])} {cval(o[3])}"
             elif k == "rollback":
                 t = f"ORollback {cz(o[2])}"
             elif k == "setexpr":
@@ -341,7 +445,7 @@ class C20(Check):
             elif k == "activate":
                 t = f"OActivate {cz(o[2])}"
             elif k == "replicate":
-                t = f"OReplicate {clist([ctuple(cz(n), cz(v)) for n, v in o[2]])} {cbool(o[3])}"
+                t = f"OReplicate {clist([ctuple(cz(n), cval(v)) for n, v in o[2]])} {cbool(o[3])}"
             else:
                 t = f"OExpress {clist([cz(n) for n in o[2]])}"
             return ctuple(cnat(i), t)
@@ -419,7 +523,7 @@ class C20(Check):
             # the attempted change of this operation, if it is a mutate in disguise
             attempt = None
             if kind == "mutate" and op[2] in vb:
-                attempt = (op[2], vb[op[2]], op[3], 0)
+                attempt = (op[2], vb[op[2]], T(op[3]), 0)
             if kind == "rollback" and op[2] in vb and op[2] in prev[i]:
                 attempt = (op[2], vb[op[2]], prev[i][op[2]], 1)
             if kind in ("mutate", "rollback"):
@@ -430,6 +534,11 @@ class C20(Check):
                 else:
                     n, old, new, r = attempt
                     authorised = allow or oracle_says(oracle, n, old, new, r)
+                    if kind == "rollback" and authorised and st["ret"] is False and not newlog and a == b:
+                        return Violation("C20/rollback-not-performed", f"step {k}: rollback of gene {n} on genome {i} is authorised "
+                                         f"(allow={allow}, callback approves={oracle_says(oracle, n, old, new, r)}) and the value "
+                                         f"preceding the last approved mutation is {new}, but it returned False, logged nothing and "
+                                         f"left the value {old}")
                     if st["ret"] is not authorised:
                         return Violation("C20/gate-wrong", f"step {k}: {op} on genome {i} (change {n}: {old}->{new}, allow={allow}, "
                                          f"callback approves={oracle_says(oracle, n, old, new, r)}) returned {st['ret']}")
@@ -489,6 +598,7 @@ class C20(Check):
                 for n, v in op[2]:
                     if n not in vc:
                         continue
+                    v = T(v)
                     authorised = allow or oracle_says(oracle, n, vc[n], v, 2)
                     explog.append([n, vc[n], v, 2, int(authorised)])
                     if authorised:
@@ -535,6 +645,16 @@ class C20(Check):
     def classify(self, case, obs, trace):
         ks = [f"allow={case['allow']}", "oracle=" + ("none" if case["oracle"] is None else "deny" if not case["oracle"] else "rules"),
               f"ops={len(case['ops'])}"]
+        kinds = {"n": "None", "b": "bool", "i": "int", "f": "float", "s": "str"}
+        for st in trace.get("steps", []):
+            for s in st.get("after", []):
+                for x in s["genes"]:
+                    ks.append("stored:" + kinds.get(x[1][0], "?"))
+                for m in s["log"]:
+                    if m[4] and m[3] == 1:
+                        ks.append("rollback-applied-to:" + kinds.get(m[2][0], "?"))
+                    elif m[3] == 1:
+                        ks.append("rollback-refused-to:" + kinds.get(m[2][0], "?"))
         for st in trace.get("steps", []):
             op = st.get("op")
             if not op or st.get("bad"):
